@@ -115,12 +115,12 @@ var Plans = map[string][]PlanEntry{
 	"C07": {{"scaleup", 2080, 96000, ""}, {"general", 480, 24000, ""}, {"lock", 320, 12800, ""}, {"taints", 240, 9600, ""}},
 	"C08": {{"scaledown", 2240, 96000, ""}, {"general", 480, 24000, ""}, {"taints", 320, 12800, ""}},
 	"C09": {{"cordon", 2240, 96000, ""}, {"general", 480, 24000, ""}, {"reaper", 320, 12800, ""}},
-	"C10": {{"reaper", 2240, 96000, ""}, {"general", 480, 24000, ""}, {"cordon", 320, 12800, ""}},
+	"C10": {{"bigreap", 200, 6000, ""}, {"reaper", 2240, 96000, ""}, {"general", 480, 24000, ""}, {"cordon", 320, 12800, ""}},
 	"C11": {{"dry", 2080, 80000, ""}, {"dry", 480, 19200, "c11"}, {"general", 240, 9600, ""}},
 	"C12": {{"multi", 960, 40000, ""}, {"multi", 960, 40000, "c12"}, {"general", 480, 19200, ""}, {"fleet2", 480, 19200, ""}},
 	"C13": {{"general", 960, 40000, ""}, {"scaledown", 480, 19200, ""}},
 	"C15": {{"taints", 2080, 96000, ""}, {"general", 480, 24000, ""}, {"scaledown", 320, 12800, ""}},
-	"C19": {{"reaper", 1280, 64000, ""}, {"external", 800, 32000, ""}, {"general", 480, 24000, ""}, {"faults", 480, 24000, ""}},
+	"C19": {{"bigreap", 400, 12000, ""}, {"reaper", 1280, 64000, ""}, {"external", 800, 32000, ""}, {"general", 480, 24000, ""}, {"faults", 480, 24000, ""}},
 	"C20": {{"faults", 2400, 112000, ""}, {"general", 640, 32000, ""}, {"fleet", 320, 12800, ""}, {"external", 160, 6400, ""}},
 }
 
